@@ -158,7 +158,17 @@ impl BitAnd for Verification {
 }
 
 #[derive(Debug, Clone, Copy, Serialize, Deserialize, Eq, Ord, PartialEq, PartialOrd)]
+#[serde(try_from = "u64")]
 struct Balance(u64);
+
+impl TryFrom<u64> for Balance {
+    type Error = Error;
+
+    /// During deserialization verify that the balance is in the valid range.
+    fn try_from(value: u64) -> Result<Self, Self::Error> {
+        Self::try_new(value)
+    }
+}
 
 impl Balance {
     fn try_new(value: u64) -> Result<Self, Error> {
